@@ -256,3 +256,20 @@ def _(c):
     c.ensures("[(getattr(self.dimensions, n).num * d[1] == d[0] * getattr(self.dimensions, n).den) for n, d in zip(['m','g','s','K','C','cd','mol','rad'], dv)] == [True] * 8", "dimension-vector-of-the-valid-string-alone")
     c.ensures("near(self.magnitude, f)", "factor-of-the-valid-string-alone")
     c.no_raise()
+
+
+# ---- exponents are rational numbers of any size: denominators beyond 1000, written directly or arising as a sum, are kept exactly ------------
+BIG_EXPS = [("m1:1001", [("", "m", 1, 1001)]), ("kg-3:1024", [("k", "g", -3, 1024)]), ("N5:2003/s", [("", "N", 5, 2003), ("", "s", -1, 1)]),
+            ("m1:7*m1:11*m1:13", [("", "m", 311, 1001)]), ("cm1:999", [("c", "m", 1, 999)]), ("statV7:1500", [("", "statV", 7, 1500)])]
+
+
+@contract(f"{BU}.__init__", ["C03"], name="BaseUnits.__init__[large-denominators]")
+def _(c):
+    c.bound = "the listed expressions with exponent denominators around and beyond 1000"
+    for expr, terms in BIG_EXPS:
+        def pre(b, expr=expr, terms=terms):
+            return dict(args=[b.obj(BU), expr], env=dict(f=U.factor(terms), dv=[(x.numerator, x.denominator) for x in U.dims(terms)]))
+        c.scenario(expr, pre)
+    c.ensures("[(getattr(self.dimensions, n).num * d[1] == d[0] * getattr(self.dimensions, n).den) for n, d in zip(['m','g','s','K','C','cd','mol','rad'], dv)] == [True] * 8", "dimension-vector")
+    c.ensures("near(self.magnitude, f)", "factor-is-prefix-times-unit-to-the-exponent")
+    c.no_raise()
